@@ -57,6 +57,9 @@ def gen_plain(rs, widths, qualified=False):
         return [rs.choice(["Bit", "bool", "int"])] if qualified else ["Bit"]
     if c == 13:
         return ["Arr", rs.choice([["U", w], ["S", w], ["BV", w], ["Bit"]]), rs.range(1, 4)]
+    if c == 14 and w > 1:
+        # ascending range of the same width: other parameters than BitVector[w] / BitVector[w-1:0], hence a distinct class
+        return ["BVs", 0, w - 1]
     return rs.choice([["BV", w], ["U", w], ["S", w]])
 
 
@@ -234,7 +237,8 @@ def finding_key(r):
 
 ASSUMPTIONS = [
     "model of the lattice is written from the statement: Q[U n]/Q[S n] < Q[BV n], Q[U]/Q[S], Q[BV]; Port[T,d] < Signal[T]; nothing else",
-    "only 'downto' vectors (BitVector[n], BitVector[n-1:0]) are generated; 'upto' declarations are outside the statement",
+    "objects and views are 'downto' vectors (BitVector[n], BitVector[n-1:0]); ascending ranges BitVector[0:n-1] (n >= 2) are requested as TYPES only: other parameters than "
+    "BitVector[n], hence a distinct class below BitVector (nothing else is assumed about them)",
     "Python-level writes through views use .next (signals, ports) and .value (variables)",
     "no clock or concurrency: this is the sequential, model-based end of the technique (order of first use, failing requests, hash seed)",
 ]
